@@ -107,6 +107,7 @@ type Obligation struct {
 	Desc     string
 	ReplayFn string
 	Inputs   []inputVar
+	Site     bool // a reachability cover of a clause's application site: first solver stage only
 }
 
 type inputVar struct {
@@ -129,6 +130,8 @@ type Exec struct {
 	beforeHits map[int]int // before clause index -> number of calls it applied to
 	pruned     int         // branches dropped in a variant run (infeasible under the variant's assumption)
 	plan       *replayPlan // how to rebuild the function's inputs from a model (replay.go)
+	siteCovered map[string]bool
+	siteCovers  []*Obligation // reachability covers of the call sites that before-clauses talk about
 	chanHits map[string]int // before_send / assume_recv clause -> number of communications it applied to
 	atReturnHits map[int]int // at_return clause index -> number of returns it was evaluated at
 	callExcept []string // the same for the call being havocked for
